@@ -88,6 +88,26 @@ def validated_return(P, R, r, sepch, idv, serv):
         ser_ok = has(lambda g: g[1] == '==' and ((is_var(g[0], serv) and is_field(g[2], 'serial', core.REQ_REC)) or (is_var(g[2], serv) and is_field(g[0], 'serial', core.REQ_REC))))
         for nm, ok in (('the separator test', sep_ok), ('the end-of-string test', end_ok), ('a successful table lookup', found_ok), ('serial == req->serial', ser_ok)):
             R.ob('C04.GRD.1', ok, s, 'the non-null return is dominated by %s' % nm, key='return:%s' % nm)
+        # the library conversions are lenient (white space, signs, "0x", values that wrap into the compared width): a
+        # text other than the one the writer produced must not name the instance, so the received text is compared
+        # with the writer's own output for the request found
+        lenient = [t for t in r.calls() if t.ev.get('callee') in ('strtol', 'strtoul', 'strtoll', 'strtoull', 'atoi', 'atol', 'sscanf')]
+        if lenient and is_var(v):
+            p0 = r.params[0]
+            bufs = set()
+            for t in r.calls('iauth_routing'):
+                a = t.ev['args']
+                if len(a) >= 2 and is_var(a[0], v['name']) and is_var(a[1]):
+                    bufs.add(a[1]['name'])
+
+            def canon(g):
+                l = g[0]
+                if not (isinstance(l, dict) and l.get('k') == 'callref' and l.get('callee') in ('strcmp', 'memcmp') and g[1] == '==' and const_of(g[2]) == 0):
+                    return False
+                names = [x['name'] for x in l['args'][:2] if is_var(x)]
+                return p0 in names and any(b in names for b in bufs)
+            R.ob('C04.GRD.1', has(canon), s, 'the non-null return is dominated by the received tag being exactly the text the tag writer produces for that request (the reader uses %s, which also accepts signs, "0x" and values that wrap)' % '/'.join(sorted({t.ev['callee'] for t in lenient})),
+                 key='return:canonical')
         # the request comes from the table, keyed by the parsed id
         if is_var(v):
             defs = r.local_defs(v['name'])
